@@ -428,50 +428,74 @@ func c17pair(c *core.Ctx, r *core.Reporter) {
 				}
 			}
 		}
-		// must-held sets keyed by lockKeyOf
+		// Per instruction: the locks that may be held without a deferred release registered on the same path.
+		// State = (U: may-set of unprotected held locks, R: must-set of registered deferred releases).
+		// Lock(k): k joins U unless k is in R (defer first, then lock). Defer-unlock(k): k joins R and leaves U.
+		// Unlock(k): k leaves U. Join: U union, R intersection.
+		type lstate struct{ u, r map[string]bool }
+		clone := func(s lstate) lstate {
+			n := lstate{map[string]bool{}, map[string]bool{}}
+			for k := range s.u {
+				n.u[k] = true
+			}
+			for k := range s.r {
+				n.r[k] = true
+			}
+			return n
+		}
+		relKeys := map[*ssa.Defer][]string{}
+		for _, rl := range rels {
+			relKeys[rl.d] = append(relKeys[rl.d], rl.key)
+		}
 		held := map[ssa.Instruction]map[string]bool{}
-		in := map[*ssa.BasicBlock]map[string]bool{fn.Blocks[0]: {}}
+		in := map[*ssa.BasicBlock]lstate{fn.Blocks[0]: {map[string]bool{}, map[string]bool{}}}
 		work := []*ssa.BasicBlock{fn.Blocks[0]}
-		// may-held (union) is what matters for "a lock may still be held": use may-analysis for pairing and raising
 		for iter := 0; len(work) > 0 && iter < 5000; iter++ {
 			b := work[0]
 			work = work[1:]
-			st := map[string]bool{}
-			for k := range in[b] {
-				st[k] = true
-			}
+			st := clone(in[b])
 			for _, ins := range b.Instrs {
 				cp := map[string]bool{}
-				for k := range st {
+				for k := range st.u {
 					cp[k] = true
 				}
 				held[ins] = cp
-				if call, ok := ins.(*ssa.Call); ok {
-					if op, mu := lockOp(call.Call); op != "" {
+				switch x := ins.(type) {
+				case *ssa.Call:
+					if op, mu := lockOp(x.Call); op != "" {
 						k := lockKeyOf(mu, fn, 0)
 						if op == "lock" {
-							st[k] = true
+							if !st.r[k] {
+								st.u[k] = true
+							}
 						} else {
-							delete(st, k)
+							delete(st.u, k)
 						}
+					}
+				case *ssa.Defer:
+					for _, k := range relKeys[x] {
+						st.r[k] = true
+						delete(st.u, k)
 					}
 				}
 			}
 			for _, s := range b.Succs {
 				old, ok := in[s]
 				if !ok {
-					n := map[string]bool{}
-					for k := range st {
-						n[k] = true
-					}
-					in[s] = n
+					in[s] = clone(st)
 					work = append(work, s)
 					continue
 				}
 				changed := false
-				for k := range st {
-					if !old[k] {
-						old[k] = true
+				for k := range st.u {
+					if !old.u[k] {
+						old.u[k] = true
+						changed = true
+					}
+				}
+				for k := range old.r {
+					if !st.r[k] {
+						delete(old.r, k)
 						changed = true
 					}
 				}
@@ -493,15 +517,7 @@ func c17pair(c *core.Ctx, r *core.Reporter) {
 				if !ok || !held[ret][key] {
 					continue
 				}
-				covered := false
-				for _, rl := range rels {
-					if rl.key == key {
-						covered = true
-					}
-				}
-				if !covered {
-					leak = c.Pos(ret.Pos())
-				}
+				leak = c.Pos(ret.Pos())
 			}
 			// (2) raising calls while held and not covered by a dominating deferred release
 			raise := ""
@@ -518,13 +534,7 @@ func c17pair(c *core.Ctx, r *core.Reporter) {
 					if !can {
 						continue
 					}
-					covered := false
-					for _, rl := range rels {
-						if rl.key == key && instrDominates(rl.d, ins) {
-							covered = true
-						}
-					}
-					if !covered && raise == "" {
+					if raise == "" {
 						raise = fmt.Sprintf("%s %s while the lock is held without a deferred release", c.Pos(call.Pos()), why)
 					}
 				}
